@@ -81,6 +81,14 @@ Theorem C10_deltat_joints : forall J mo,
               (PrimFloat.abs (a - b) <? 1)%float = true.
 Proof. exact deltat_joints. Qed.
 
+(* the same on the property's (year, month) grid: January of the joint year against December of
+   the year before, joints after -500 (the text's reading) *)
+Theorem C10_deltat_joints_monthly : forall J,
+  In J [500; 1600; 1700; 1800; 1860; 1900; 1920; 1941; 1961; 1986; 2005] ->
+  exists a b, tt2ut (VInt J) (VInt 1) = VFloat a /\ tt2ut (VInt (J - 1)) (VInt 12) = VFloat b /\
+              (PrimFloat.abs (a - b) <? 1)%float = true.
+Proof. exact deltat_joints_monthly. Qed.
+
 (* a finite float for every (year, month) -2000..3000 outside the segment 2050..2149, which
    calls libm pow and is covered by correspondence + search *)
 Theorem C10_deltat_finite : forall y m, -2000 <= y <= 3000 -> (y < 2050 \/ 2150 <= y) -> 1 <= m <= 12 ->
@@ -109,5 +117,6 @@ Redirect "C10_override_zero_refuted.assumptions" Print Assumptions C10_override_
 Redirect "C10_override_partial.assumptions" Print Assumptions C10_override_partial.
 Redirect "C10_deltat_near.assumptions" Print Assumptions C10_deltat_near.
 Redirect "C10_deltat_joints.assumptions" Print Assumptions C10_deltat_joints.
+Redirect "C10_deltat_joints_monthly.assumptions" Print Assumptions C10_deltat_joints_monthly.
 Redirect "C10_deltat_finite.assumptions" Print Assumptions C10_deltat_finite.
 Redirect "C10_deltat_pow_segment.assumptions" Print Assumptions C10_deltat_pow_segment.
